@@ -497,11 +497,21 @@ fn cb_case(r: &mut Rng, sink: &mut Sink) {
                 let mut full: Vec<u8> = vec![]; full.put_frame(&f);
                 if b != full { sink.monitor_fail("cb:admitted-differs", &format!("CONNECTION_CLOSE admitted by size (rem {} >= size {}) but the bounded writer wrote different bytes", rem, size)); }
             }
+            else {
+                // truncated: what was written must be type+codes, a length k and the first k bytes of the reason
+                use qbase::varint::WriteVarInt;
+                let mut full: Vec<u8> = vec![]; full.put_frame(&f);
+                let ok = (0..=n).any(|k| { let mut e = full[..head].to_vec(); e.put_varint(&VarInt::from_u32(k as u32)); e.extend_from_slice(&reason.as_bytes()[..k]); e == b });
+                if !ok { sink.monitor_fail("cb:truncated-malformed", &format!("CONNECTION_CLOSE truncated into {} bytes is not type+codes, length k, first k bytes of the reason: {}", rem, hex(&b))); }
+            }
         }
         Err(m) => {
             sink.line(&op, "PANIC");
             if rem >= size { sink.monitor_fail("cb:admitted-panics", &format!("CONNECTION_CLOSE admitted by size (rem {} >= size {}) but put_frame panicked: {}", rem, size, m)); }
-            else if rem >= head { sink.monitor_fail("cb:truncation-panics", &format!("put_frame(ConnectionCloseFrame) panics instead of truncating the reason: room {} after {} bytes of type+codes, reason {} bytes ({})", rem - head, head, n, m)); }
+            // rem == head: not even the 1-byte Reason Phrase Length fits; put_frame returns () and can only panic
+            // (theorem close_bounded_needs_length_byte) -- not a truncation failure
+            else if rem == head { sink.branch("cb:panic-no-room-for-length"); }
+            else if rem > head { sink.monitor_fail("cb:truncation-panics", &format!("put_frame(ConnectionCloseFrame) panics instead of truncating the reason: room {} after {} bytes of type+codes, reason {} bytes ({})", rem - head, head, n, m)); }
         }
     }
 }
